@@ -42,6 +42,7 @@ def run(ctx):
     R3 = rep.rule('C12.R3', 'path-component table parity of every id builder', floor=1)
     R4 = rep.rule('C12.R4', 'IdBuilder::push rejects segments containing "." before mutating', floor=1)
     R5 = rep.rule('C12.R5', 'entry kind from the file system, extension from the shared helper', floor=1)
+    R7 = rep.rule('C12.R7', 'an id builder handed in by reference is reset before it is used', floor=1)
     R6 = rep.rule('C12.R6', 'the watched root itself is nameable: id_of_path can return Directory("") for path == root', floor=1)
     for cfg, F in ctx.cfgs():
         hr = 'hot-reloading' in ctx.cfg_features[cfg]
@@ -53,6 +54,8 @@ def run(ctx):
             for r in (R1, R2, R5, R6):
                 r.finish_cfg(cfg)
         if hr or 'zip' in ctx.cfg_features[cfg] or 'tar' in ctx.cfg_features[cfg]:
+            r7(R7, cfg, F)
+            R7.finish_cfg(cfg)
             r3(R3, cfg, F, ctx.cfg_features[cfg])
             r4(R4, cfg, F)
             R3.finish_cfg(cfg)
@@ -389,6 +392,40 @@ def r6(R6, cfg, F):
                     r = b.call_roots(s['rv']['ops'][0])
                     if len(r) == 1 and r[0].callee.best == 'utils::private::IdBuilder::join':
                         ok = True
+                    # or the literal empty id
+                    lit = b.origins(s['rv']['ops'][0], passthrough=common.make_pt(r'Into<U>>::into$', r'From<.*>>::from$'))
+                    if lit == {('const', '""')}:
+                        ok = True
         if not ok:
             why = 'a Directory entry is returned without any pushed segment, but not under the condition path == root'
     R6.check(ok, cfg, b.path, 'root-directory-nameable', why, b.loc())
+
+
+def r7(R7, cfg, F):
+    """The builder is reused between calls (it is a field / a parameter), so every function that assembles an id
+    with it must start from an empty buffer on EVERY path -- including after an earlier call bailed out with `?`
+    half-way: reset() must dominate every push / pop / join."""
+    IB = 'utils::private::IdBuilder::'
+    n = 0
+    for b in F.fn_bodies():
+        uses = [c for c in b.calls() if c.callee and c.callee.best in (IB + 'push', IB + 'pop', IB + 'join')]
+        if not uses or b.path.startswith('utils::private::'):
+            continue
+        # only builders that come from outside (parameter / captured variable), not a fresh local
+        ext = [c for c in uses if any(r[0] in ('arg', 'upvar') for r in b.origins(c.args[0]))]
+        if not ext:
+            continue
+        n += 1
+        rs = [c for c in b.calls() if c.callee and c.callee.best == IB + 'reset']
+        ok = bool(rs) and all(any(b.dominates(r.bb, u.bb) and r.bb != u.bb for r in rs) for u in ext)
+        if not ok and b.kind == 'Closure' and not rs:
+            # the builder is reset by the enclosing function before the closure (which captures it) is built
+            par = F.body(b.parent)
+            if par is not None:
+                lits = [bb for bb, j, s in par.assigns() if s['rv']['k'] == 'aggregate' and s['rv'].get('closure') == b.path]
+                prs = [c for c in par.calls() if c.callee and c.callee.best == IB + 'reset']
+                ok = len(lits) == 1 and bool(prs) and any(par.dominates(r.bb, lits[0]) for r in prs)
+        R7.check(ok, cfg, b.path, 'reset-dominates-every-use', '`%s` uses a shared IdBuilder without resetting it first on every path: segments left by an earlier call that bailed out half-way '
+                 'would be prepended to the next id (the next notification / archive member is then given a wrong id)' % b.path, b.loc())
+    if n == 0:
+        R7.missing(cfg, 'a function using a shared IdBuilder')
